@@ -222,6 +222,11 @@ def itemPrefix (ordered : Bool) (start i : Nat) (bullet : Str) : Str × Str :=
     (num ++ ['.', ' '], List.replicate (num.length + 2) ' ')
   else (bullet ++ [' '], [' ', ' '])
 
+/-- `render_thematic_break`: `* * *`, except when the innermost marker before it is a `*` bullet (where `* * * *` would itself be a
+rule): there `- - -`. -/
+def ruleText (pfx : Str) : Str :=
+  if (rstrip pfx).getLast? == some '*' then "- - -".toList else "* * *".toList
+
 mutual
   def renderBlock (cfg : RCfg) (st : RState) : Block → Str × RState
     | .para cs checked =>
@@ -267,7 +272,7 @@ mutual
     | .indented content =>
       (renderCodeLines st content [] [] false '`' 3,
        { st with skipBlank := false, pfx := st.snd, suppress := false })
-    | .hr => (st.pfx ++ "* * *\n".toList, { st with pfx := st.snd, skipBlank := false, suppress := false })
+    | .hr => (st.pfx ++ ruleText st.pfx ++ ['\n'], { st with pfx := st.snd, skipBlank := false, suppress := false })
     | .heading level cs _ =>
       let r0 := renderInlines cfg true [] cs
       let r := (unbreak r0.1, r0.2)
